@@ -7,6 +7,7 @@ package main
 import (
 	"encoding/json"
 	"fmt"
+	"reflect"
 
 	"github.com/bluenviron/gomavlib/v3/pkg/dialect"
 	"github.com/bluenviron/gomavlib/v3/pkg/dialects/common"
@@ -53,6 +54,8 @@ type rcase struct {
 
 var drw *dialect.ReadWriter
 var tindex gm.TypeIndex
+var crcExtraOf = map[uint32]byte{} // reference CRC_EXTRA of the messages of the common dialect
+var baseSizeOf = map[uint32]int{}
 
 func buildFrame(c *rcase, seq byte, ts uint64) []byte {
 	p := make([]byte, c.PLen)
@@ -65,10 +68,7 @@ func buildFrame(c *rcase, seq byte, ts uint64) []byte {
 		f.LinkID = c.Link
 		f.Timestamp = ts
 	}
-	crcExtra := byte(0)
-	if c.ID == 0 {
-		crcExtra = 50
-	}
+	crcExtra := crcExtraOf[c.ID] // 0 for ids outside the dialect (never validated)
 	f.Checksum = f.ComputeChecksum(crcExtra)
 	if c.Signed {
 		f.Sig = f.Sign(c.SignKey)
@@ -223,6 +223,18 @@ func main() {
 		bx.Fatalf("%v", err)
 	}
 	tindex = gm.NewTypeIndex(corpus)
+	for _, m := range common.Dialect.Messages {
+		mt := tindex[reflect.TypeOf(m).Elem()]
+		if mt == nil {
+			bx.Fatalf("message %T of the common dialect is not in the corpus", m)
+		}
+		crcExtraOf[mt.ID] = mt.Def.CRCExtra()
+		b, _ := mt.Def.Sizes()
+		baseSizeOf[mt.ID] = b
+	}
+	if crcExtraOf[0] != 50 {
+		bx.Fatalf("reference CRC_EXTRA of HEARTBEAT is %d", crcExtraOf[0])
+	}
 	r.Replayer = func(class string, raw json.RawMessage) (bool, string) {
 		var d string
 		if class == "writer" {
@@ -317,6 +329,38 @@ func main() {
 			}
 		}
 	}
+	// every message id (no id is exempt from the key): all ids of the dialect, 0..511 and
+	// boundaries; otherwise valid unsigned v2 / v1 frames and frames signed with another key are
+	// refused, validly signed ones delivered
+	idset := map[uint32]bool{4242: true, 65535: true, 65536: true, 1<<24 - 1: true}
+	for id := uint32(0); id < 512; id++ {
+		idset[id] = true
+	}
+	for id := range crcExtraOf {
+		idset[id] = true
+	}
+	for _, dial := range []bool{false, true} {
+		for id := range idset {
+			pl := 9
+			if bs, known := baseSizeOf[id]; known && dial {
+				pl = bs // an otherwise valid v1 frame needs the exact base size
+			}
+			b := rcase{Dialect: dial, Key: ks[0], SignKey: ks[0], V2: true, Signed: true, PLen: pl, ID: id, Link: 7, TS: 5000, Flip: -1, Expect: "deliver"}
+			cases = append(cases, b)
+			c := b
+			c.SignKey = ks[1]
+			c.Expect = "refuse"
+			cases = append(cases, c)
+			c = b
+			c.Signed = false
+			c.Expect = "refuse"
+			cases = append(cases, c)
+			if id < 256 {
+				c.V2 = false
+				cases = append(cases, c)
+			}
+		}
+	}
 	bx.ParDo(len(cases), func(i int) {
 		c := cases[i]
 		evals.Add(1)
@@ -355,7 +399,7 @@ func main() {
 		}
 	})
 	r.Assumption = []string{
-		"5 keys, payload lengths {0,1,9,255}, 3 message ids; alterations are single-bit flips (every bit of frame and key), not arbitrary forgeries",
+		"5 keys, payload lengths {0,1,9,255}, 3 message ids for the bit-flip sweeps (every id of the dialect, 0..511 and boundaries for the signed / other key / unsigned / v1 cases); alterations are single-bit flips (every bit of frame and key), not arbitrary forgeries",
 		"the node clause (frames on the wire of a node with OutKey) is covered by the engine-B wire oracle (C11), not here",
 	}
 	r.Finish(map[string]any{
